@@ -313,10 +313,10 @@ class LRI(dict):
     def update(self, E, **F):
         # E and F are throwback names to the dict() __doc__
         with self._lock:
-            if E is self:
-                return
             setitem = self.__setitem__
-            if callable(getattr(E, 'keys', None)):
+            if E is self:
+                pass
+            elif callable(getattr(E, 'keys', None)):
                 for k in E.keys():
                     setitem(k, E[k])
             else:
